@@ -27,7 +27,7 @@ import (
 const c06Grid = 1048576.0 // 2^20
 
 type c06Op struct {
-	Op string `json:"op"` // add | synth | merge | mergefailed
+	Op string `json:"op"` // add | synth | merge | mergefailed | mergesplit
 	P  int64  `json:"p"`
 	T  int64  `json:"t"`
 	R  int    `json:"r"` // index of an earlier reservoir (merge / mergefailed)
@@ -249,6 +249,12 @@ func c06RunReservoirs(in []c06Res) []c06ResOut {
 				r.ae.Merge(built[op.R].ae)
 			case "mergefailed":
 				built[op.R].failed(r)
+			case "mergesplit":
+				// both halves of a split payload failed and are carried over (processor.go splits
+				// large transaction event payloads; each half has its own FailedHarvest)
+				e1, e2 := built[op.R].ae.Split()
+				r.ae.MergeFailed(e1)
+				r.ae.MergeFailed(e2)
 			default:
 				panic("op " + op.Op)
 			}
